@@ -435,7 +435,9 @@ pub(crate) fn recv_timeout_sync<T: Send>(
           match receiver.shared.try_recv_core() {
             Ok(item) => return Ok(item),
             Err(TryRecvError::Disconnected) => return Err(RecvErrorTimeout::Disconnected),
-            Err(TryRecvError::Empty) => unreachable!("state was finished but channel empty"),
+            // The notifier buffered the item and flagged us, but another receiver took it
+            // before we got here. Nothing is owed to us and the deadline has passed.
+            Err(TryRecvError::Empty) => return Err(RecvErrorTimeout::Timeout),
           }
         }
       }
